@@ -110,6 +110,7 @@ def community_louvain(W, gamma=1, ci=None, B='modularity', seed=None):
         optimized q-statistic (modularity only)
     '''
     rng = get_rng(seed)
+    W = np.asarray(W, dtype=float)  # bool / unsigned / single-precision storage: compute in float64
     n = len(W)
     s = np.sum(W)
 
@@ -520,6 +521,7 @@ def modularity_dir(A, gamma=1, kci=None):
     but this function uses a deterministic modularity maximization algorithm.
     '''
     from scipy import linalg
+    A = np.asarray(A, dtype=float)
     n = len(A)  # number of vertices
     ki = np.sum(A, axis=0)  # in degree
     ko = np.sum(A, axis=1)  # out degree
@@ -625,6 +627,7 @@ def modularity_finetune_dir(W, ci=None, gamma=1, seed=None):
     algorithm. Consequently, it may be worth to compare multiple runs.
     '''
     rng = get_rng(seed)
+    W = np.asarray(W, dtype=float)  # bool / unsigned / single-precision storage: compute in float64
 
     n = len(W)  # number of nodes
     if ci is None:
@@ -729,6 +732,7 @@ def modularity_finetune_und(W, ci=None, gamma=1, seed=None):
     algorithm. Consequently, it may be worth to compare multiple runs.
     '''
     rng = get_rng(seed)
+    W = np.asarray(W, dtype=float)  # bool / unsigned / single-precision storage: compute in float64
 
     #import time
     n = len(W)  # number of nodes
@@ -833,6 +837,7 @@ def modularity_finetune_und_sign(W, qtype='sta', gamma=1, ci=None, seed=None):
     algorithm. Consequently, it may be worth to compare multiple runs.
     '''
     rng = get_rng(seed)
+    W = np.asarray(W, dtype=float)  # bool / unsigned / single-precision storage: compute in float64
 
     n = len(W)  # number of nodes/modules
     if ci is None:
@@ -969,6 +974,7 @@ def modularity_louvain_dir(W, gamma=1, hierarchy=False, seed=None):
     algorithm. Consequently, it may be worth to compare multiple runs.
     '''
     rng = get_rng(seed)
+    W = np.asarray(W, dtype=float)  # bool / unsigned / single-precision storage: compute in float64
 
     n = len(W)  # number of nodes
     s = np.sum(W)  # total weight of edges
@@ -1102,6 +1108,7 @@ def modularity_louvain_und(W, gamma=1, hierarchy=False, seed=None):
     algorithm. Consequently, it may be worth to compare multiple runs.
     '''
     rng = get_rng(seed)
+    W = np.asarray(W, dtype=float)  # bool / unsigned / single-precision storage: compute in float64
 
     n = len(W)  # number of nodes
     s = np.sum(W)  # weight of edges
@@ -1240,6 +1247,7 @@ def modularity_louvain_und_sign(W, gamma=1, qtype='sta', seed=None):
     algorithm. Consequently, it may be worth to compare multiple runs.
     '''
     rng = get_rng(seed)
+    W = np.asarray(W, dtype=float)  # bool / unsigned / single-precision storage: compute in float64
 
     n = len(W)  # number of nodes
 
@@ -1410,6 +1418,7 @@ def modularity_probtune_und_sign(W, qtype='sta', gamma=1, ci=None, p=.45,
     algorithm. Consequently, it may be worth to compare multiple runs.
     '''
     rng = get_rng(seed)
+    W = np.asarray(W, dtype=float)  # bool / unsigned / single-precision storage: compute in float64
 
     n = len(W)
     if ci is None:
@@ -1536,6 +1545,7 @@ def modularity_und(A, gamma=1, kci=None):
     but this function uses a deterministic modularity maximization algorithm.
     '''
     from scipy import linalg
+    A = np.asarray(A, dtype=float)
     n = len(A)  # number of vertices
     k = np.sum(A, axis=0)  # degree
     m = np.sum(k)  # number of edges (each undirected edge
@@ -1630,6 +1640,7 @@ def modularity_und_sign(W, ci, qtype='sta'):
     uses a deterministic algorithm
     '''
     n = len(W)
+    W = np.asarray(W, dtype=float)
     _, ci = np.unique(ci, return_inverse=True)
     ci += 1
 
